@@ -104,6 +104,13 @@ fn take_string(r: ffi::SerializingResult) -> Result<String, String> {
 }
 
 fn fill_ctx(arena: &mut Arena, cx: &mut ffi::ExecutionContext<'_>, r: &Recipe, c: &MCtx, how: usize, case: &Value) -> CaseResult {
+    if how >= 3 {
+        // two steps on one context: every other field first (3: typed setters, 4: a document),
+        // then a document with the remaining fields - what is already there stays
+        let part = |keep: usize| MCtx { vals: c.vals.iter().enumerate().map(|(i, v)| if i % 2 == keep { v.clone() } else { None }).collect() };
+        fill_ctx(arena, cx, r, &part(0), if how == 3 { 0 } else { 2 }, case)?;
+        return fill_ctx(arena, cx, r, &part(1), 2, case);
+    }
     if how == 2 {
         // the whole context as one JSON document; the buffer is only lent for the call
         let mut o = serde_json::Map::new();
@@ -154,7 +161,7 @@ fn fill_ctx(arena: &mut Arena, cx: &mut ffi::ExecutionContext<'_>, r: &Recipe, c
 fn diff_case(ch: &mut Choices<'_>, st: &mut Stats) -> CaseResult {
     let mut arena = Arena::new();
     let broken = ch.chance(1, 3);
-    let how = ch.draw(3);
+    let how = ch.draw(5);
     let mut gen_ = Gen::new(ch, GenCfg { max_depth: 3, ..GenCfg::full() });
     let expr = gen_.gen_bool(3);
     gen_.finish_scheme();
@@ -617,9 +624,14 @@ pub fn child(args: &[String]) -> i32 {
     if args.first().map(|s| s.as_str()) != Some("panic") {
         return 2;
     }
-    // fresh process: install the catcher hook, enable catching on this thread
-    ffi::panic::wirefilter_set_panic_catcher_hook();
-    ffi::panic::wirefilter_enable_panic_catcher();
+    // fresh process: install the catcher hook and enable catching on this thread, in either order
+    if args.get(1).map(|s| s.as_str()) == Some("enable-first") {
+        ffi::panic::wirefilter_enable_panic_catcher();
+        ffi::panic::wirefilter_set_panic_catcher_hook();
+    } else {
+        ffi::panic::wirefilter_set_panic_catcher_hook();
+        ffi::panic::wirefilter_enable_panic_catcher();
+    }
     let mut b = ffi::wirefilter_create_scheme_builder();
     let t = ffi::wirefilter_create_primitive_type(ffi::CPrimitiveType::Int);
     assert!(ffi::wirefilter_add_type_field_to_scheme(&mut b, b"n".as_ptr().cast(), 1, t));
@@ -704,13 +716,14 @@ pub fn child(args: &[String]) -> i32 {
     0
 }
 
-fn panic_case(_ch: &mut Choices<'_>, st: &mut Stats) -> CaseResult {
-    let (code, sig, out, err) = spawn_child(&["c20", "panic"], &[], None);
+fn panic_case(ch: &mut Choices<'_>, st: &mut Stats) -> CaseResult {
+    let order = if ch.draw(2) == 1 { "enable-first" } else { "hook-first" };
+    let (code, sig, out, err) = spawn_child(&["c20", "panic", order], &[], None);
     let out = String::from_utf8_lossy(&out).to_string();
     st.eval();
     match (code, sig) {
         (Some(0), _) if out.contains("OK") => {
-            st.class("panic-status-reported");
+            st.class(&format!("panic-status-reported({order})"));
             st.nontrivial("panic-at-parse-compile-match");
             st.nontrivial("next-call-works-after-panic");
             Ok(())
@@ -884,7 +897,7 @@ pub fn run(run: &Run) {
     let subs = subs();
     let get = |n: &str| &*find_sub(&subs, n).unwrap().f;
     run_regressions(run, &subs);
-    run.fixed("panic", &[vec![0]], get("panic"));
+    run.fixed("panic", &[vec![0], vec![1]], get("panic"));
     let n = run.tier.pick(60_000, 2_000_000);
     run.random("diff", n, 300, get("diff"));
     run.random("builder", n, 40, get("builder"));
